@@ -158,6 +158,8 @@ func hashTree(root string, dirs []string) string {
 	return hex.EncodeToString(h.Sum(nil))[:16]
 }
 
+var optionalRejected, generatedOK []string
+
 // skipInstrumentation makes prepare build the harness over the pristine copy (self-test only).
 var skipInstrumentation bool
 
@@ -215,8 +217,15 @@ func prepare(pc *propCfg) *buildInfo {
 			o, err := cmd.CombinedOutput()
 			in.Close()
 			if err != nil {
+				if strings.HasPrefix(name, "Opt") {
+					// optional fixture: uses a regex feature the generator of this tree may reject
+					os.Remove(filepath.Join(genDir, strings.ToLower(name)+".go"))
+					optionalRejected = append(optionalRejected, name)
+					continue
+				}
 				trouble("lexer generator failed on fixture %s:\n%s", name, o)
 			}
+			generatedOK = append(generatedOK, name)
 		}
 	}
 	if genOK {
@@ -226,6 +235,15 @@ func prepare(pc *propCfg) *buildInfo {
 		sort.Strings(fixtures)
 		for _, fx := range fixtures {
 			name := strings.TrimSuffix(filepath.Base(fx), ".json")
+			skip := false
+			for _, r := range optionalRejected {
+				if r == name {
+					skip = true
+				}
+			}
+			if skip {
+				continue
+			}
 			fmt.Fprintf(&hook, "\tgeneratedDefs[%q] = gen.%sLexer\n", name, name)
 		}
 		hook.WriteString("}\n")
